@@ -710,6 +710,9 @@ var stdExternals = map[string]externalFn{
 
 	"unicode.Is": extUnicodeIs,
 
+	"sort.Slice":       func(fr *frame, args []value) value { return sortSlice(fr, args, false) },
+	"sort.SliceStable": func(fr *frame, args []value) value { return sortSlice(fr, args, true) },
+
 	// math/bits wide arithmetic as one wide bit-vector operation
 	"math/bits.Mul64": func(fr *frame, args []value) value {
 		if x, ok := args[0].(uint64); ok {
@@ -823,3 +826,29 @@ func (i *interpreter) mkError(msg string) value {
 }
 
 var _ = strings.Contains
+
+// sortSlice runs the real sort algorithm bodies (pdqsort_func / stable_func)
+// with an engine-provided swapper (the real one is built with reflection).
+func sortSlice(fr *frame, args []value, stable bool) value {
+	x := args[0].(iface)
+	s, ok := x.v.([]value)
+	if !ok {
+		checkBad(x.v)
+		panic(pathEnd{stUnsupported, "sort.Slice of non-slice"})
+	}
+	n := len(s)
+	swap := &nativeFn{name: "swap", f: func(fr *frame, a []value) value {
+		i, j := int(fr.toInt(a[0], nil)), int(fr.toInt(a[1], nil))
+		s[i], s[j] = s[j], s[i]
+		return nil
+	}}
+	ls := structure{args[1], swap}
+	if stable {
+		fn := fr.i.lookupFunc("sort", "stable_func")
+		callSSA(fr.i, fr, 0, fn, []value{ls, n}, nil)
+		return nil
+	}
+	fn := fr.i.lookupFunc("sort", "pdqsort_func")
+	callSSA(fr.i, fr, 0, fn, []value{ls, 0, n, mbits.Len(uint(n))}, nil)
+	return nil
+}
